@@ -120,6 +120,9 @@ func c03apply(t *tree.Tree, n int, op int, step int) (*tree.Tree, bool) {
 	switch op {
 	case 0:
 		in := innerNodes(t)
+		if len(in) == 0 {
+			return t, false
+		}
 		return t, t.Reroot(in[sxChoose(tag("newroot"), len(in))]) == nil
 	case 1:
 		return t, t.RerootFirst() == nil
@@ -217,12 +220,18 @@ func c03apply(t *tree.Tree, n int, op int, step int) (*tree.Tree, bool) {
 		return t, true
 	case 17:
 		tips := t.Tips()
+		if len(tips) == 0 {
+			return t, false
+		}
 		m := map[string]string{tips[sxChoose(tag("renamed"), len(tips))].Name(): "t9"}
 		return t, t.Rename(m) == nil
 	case 18:
 		return t.Clone(), true
 	case 19:
 		in := innerNodes(t)
+		if len(in) == 0 {
+			return t, false
+		}
 		return t.SubTree(in[sxChoose(tag("subroot"), len(in))]), true
 	case 20:
 		if sxChoose(tag("what"), 2) == 0 {
